@@ -25,7 +25,9 @@ CASES = [
     Case('varcoeff_after_sweep', 'pySDC/implementations/controller_classes/controller_nonMPI.py', '                S.levels[0].sweep.updateVariableCoeffs(k + 1)  # update QDelta coefficients if variable preconditioner\n                S.levels[0].sweep.update_nodes()\n', '                S.levels[0].sweep.update_nodes()\n                S.levels[0].sweep.updateVariableCoeffs(k + 1)\n', 'C02.R6', 'it_fine'),
     Case('varcoeff_wrong_index', 'pySDC/implementations/controller_classes/controller_nonMPI.py', 'S.levels[0].sweep.updateVariableCoeffs(k + 1)', 'S.levels[0].sweep.updateVariableCoeffs(k)', 'C02.R6', 'it_fine'),
     Case('mpi_reduce_wrong_row', SW + 'generic_implicit_MPI.py', 'L.dt * self.coll.Qmat[m + 1, self.rank + 1] * L.f[self.rank + 1], recvBuf', 'L.dt * self.coll.Qmat[self.rank + 1, m + 1] * L.f[self.rank + 1], recvBuf', 'C02.R7', 'generic_implicit_MPI.integrate'),
+    Case('cached_alias_of_QI_read_by_the_sweep', IMEX, "        self.QE = self.get_Qdelta_explicit(qd_type=self.params.QE)\n", "        self.QE = self.get_Qdelta_explicit(qd_type=self.params.QE)\n        self.QIc = self.QI\n", 'C02.R6b', 'imex_1st_order ::', more=[("integral[m] -= L.dt * (self.QI[m + 1, j] * L.f[j].impl", "integral[m] -= L.dt * (self.QIc[m + 1, j] * L.f[j].impl")], note='after updateVariableCoeffs rebinds self.QI the cached name still holds QI(1)'),
     # ---- benign twins: behaviour-preserving edits that must stay silent
+    Case('twin_cached_constant_matrix', IMEX, "        self.QE = self.get_Qdelta_explicit(qd_type=self.params.QE)\n", "        self.QE = self.get_Qdelta_explicit(qd_type=self.params.QE)\n        self.QIunused = self.QI\n", benign=True, note='a stale copy nobody reads changes nothing'),
     Case('twin_rename_locals', GI, 'integral', 'known_terms', benign=True, count=7),
     Case('twin_shift_loop', GI, '        for m in range(M):\n            # get -QdF(u^k)_m\n            for j in range(1, M + 1):\n                integral[m] -= L.dt * self.QI[m + 1, j] * L.f[j]\n\n            # add initial value\n            integral[m] += L.u[0]\n            # add tau if associated\n            if L.tau[m] is not None:\n                integral[m] += L.tau[m]',
          '        for m in range(1, M + 1):\n            for j in range(0, M):\n                integral[m - 1] += -(L.dt * self.QI[m, j + 1] * L.f[j + 1])\n            if L.tau[m - 1] is not None:\n                integral[m - 1] += L.tau[m - 1]\n            integral[m - 1] += L.u[0]', benign=True, note='1-based loop, negated +=, reordered independent statements'),
